@@ -185,7 +185,8 @@ Theorem C15_cli_exits_table :
   run_cli false (script_of [(SConstraints, EValueError)]) = mkOut (Uncaught EValueError) true /\
   run_cli false (script_of [(SExtraParams, ESystemExit)]) = mkOut (Uncaught ESystemExit) true /\
   run_cli false (script_of [(SBuildRepo, EValueError)]) = mkOut (Exit 1) true /\
-  run_cli false (script_of [(SBuildRepo, ERepoInit)]) = mkOut (Exit 1) true.
+  run_cli false (script_of [(SBuildRepo, ERepoInit)]) = mkOut (Exit 1) true /\
+  run_cli false (script_of [(SBuildRepo, EOSError)]) = mkOut (Exit 1) true.
 Proof. exact cli_exits_table. Qed.
 Print Assumptions C15_cli_exits_table.
 
@@ -210,19 +211,21 @@ Print Assumptions C15_cli_covered_failures_exit_1.
 
 Theorem C15_cli_traceback_pairs_table :
   cli_traceback_pairs false =
-    [(SExtraParams, EValueError); (SConstraints, EValueError); (SCompile, EValueError);
-     (SWrite, EValueError); (SWrite, ERepoInit); (SWrite, ENoCandidate); (SWrite, EMetadata)] /\
+    [(SInputs, EOSError); (SExtraParams, EValueError); (SExtraParams, EOSError);
+     (SConstraints, EValueError); (SConstraints, EOSError); (SCompile, EValueError); (SCompile, EOSError);
+     (SWrite, EValueError); (SWrite, ERepoInit); (SWrite, ENoCandidate); (SWrite, EMetadata); (SWrite, EOSError)] /\
   cli_traceback_pairs true =
-    [(SExtraParams, EValueError); (SConstraints, EValueError); (SCompile, EValueError);
-     (SSetupReqs, EValueError); (SSetupReqs, ERepoInit); (SSetupReqs, ENoCandidate); (SSetupReqs, EMetadata);
-     (SWrite, EValueError); (SWrite, ERepoInit); (SWrite, ENoCandidate); (SWrite, EMetadata)].
+    [(SInputs, EOSError); (SExtraParams, EValueError); (SExtraParams, EOSError);
+     (SConstraints, EValueError); (SConstraints, EOSError); (SCompile, EValueError); (SCompile, EOSError);
+     (SSetupReqs, EValueError); (SSetupReqs, ERepoInit); (SSetupReqs, ENoCandidate); (SSetupReqs, EMetadata); (SSetupReqs, EOSError);
+     (SWrite, EValueError); (SWrite, ERepoInit); (SWrite, ENoCandidate); (SWrite, EMetadata); (SWrite, EOSError)].
 Proof. exact cli_traceback_pairs_table. Qed.
 Print Assumptions C15_cli_traceback_pairs_table.
 
 Theorem C15_cli_unusable_repository_is_diagnostic :
   forall (user : bool) (sc : script) (e : ecls),
   sc SInputs = None -> sc SExtraParams = None -> sc SConstraints = None ->
-  sc SBuildRepo = Some e -> (e = EValueError \/ e = ERepoInit) ->
+  sc SBuildRepo = Some e -> (e = EValueError \/ e = ERepoInit \/ e = EOSError) ->
   o_end (run_cli user sc) = Exit 1.
 Proof. exact cli_unusable_repository_is_diagnostic. Qed.
 Print Assumptions C15_cli_unusable_repository_is_diagnostic.
